@@ -112,7 +112,11 @@ class Effects:
                 return o_replace(self, target, *a, **kw)
             if eff._effect("rename", eff.rel(target)):
                 raise Kill()
-            r = o_replace(self, target, *a, **kw)
+            eff.depth += 1
+            try:
+                r = o_replace(self, target, *a, **kw)
+            finally:
+                eff.depth -= 1
             try:
                 data = Path(target).read_bytes()
                 import hashlib
@@ -127,7 +131,35 @@ class Effects:
                 return o_rename(self, target, *a, **kw)
             if eff._effect("rename", eff.rel(target)):
                 raise Kill()
-            return o_rename(self, target, *a, **kw)
+            eff.depth += 1
+            try:
+                return o_rename(self, target, *a, **kw)
+            finally:
+                eff.depth -= 1
+
+        import os as _os
+
+        self._orig_os = (_os.replace, _os.rename)
+        oo_replace, oo_rename = self._orig_os
+
+        def os_move(orig):
+            def f(src, dst, *a, **kw):
+                if eff.depth or not in_scope(dst):
+                    return orig(src, dst, *a, **kw)
+                if eff._effect("rename", eff.rel(dst)):
+                    raise Kill()
+                r = orig(src, dst, *a, **kw)
+                try:
+                    import hashlib
+
+                    data = Path(dst).read_bytes()
+                    eff.payload[-1] = json.loads(data) if str(dst).endswith("file_hash.json") else hashlib.sha256(data).hexdigest()
+                except Exception:  # noqa: BLE001
+                    pass
+                return r
+            return f
+
+        _os.replace, _os.rename = os_move(oo_replace), os_move(oo_rename)
 
         def commit(self, *a, **kw):
             changed = bool(self.new or self.dirty or self.deleted) or getattr(self, "_zv_flushed", False)
@@ -166,6 +198,9 @@ class Effects:
         P = pathlib.Path
         P.write_text, P.open, P.unlink, sqlalchemy.orm.Session.commit, json.dump, P.replace, P.rename = self._orig
         event.remove(sqlalchemy.orm.Session, "after_flush", self._after_flush)
+        import os as _os
+
+        _os.replace, _os.rename = self._orig_os
         return False
 
 
